@@ -34,6 +34,7 @@ partial def generic (g : DrvRun.GOracle) (j : Json) : Json :=
   | "run" => DrvElab.run g j
   | "load" => DrvLoad.load g j
   | "bind" => DrvBind.bind j
+  | "typed" => DrvBind.typed j
   | "lex" => DrvLex.lex j
   | "lit" => DrvLit.lits g j
   | "cli" => DrvCli.cli j
